@@ -575,7 +575,11 @@ func (e *Engine) binop(st *State, op token.Token, x, y Val, resT types.Type, pos
 			return p("bvsge")
 		}
 	case s.IsFP():
-		f := func(name string) Val { return mk(T(s, "(%s RNE %s %s)", name, a.S, b.S)) }
+		// arithmetic results are only ever compared with identical computations: keep them
+		// uninterpreted (sound abstraction; avoids bit-blasting 53-bit multipliers)
+		f := func(name string) Val {
+			return mk(e.ctx.App(strings.ReplaceAll(name, ".", "_")+"_w"+fmt.Sprint(len(string(s))), s, a, b))
+		}
 		p := func(name string) Val { return mk(T(SBool, "(%s %s %s)", name, a.S, b.S)) }
 		switch op {
 		case token.ADD:
